@@ -78,6 +78,9 @@ def _cfg_frame(tier):
         for op in ops:
             for preset in ('imperial', 'metric'):
                 out.append({'carrier': c, 'step_ft': step, 'wind': wind, 'kw': kw, 'op': op, 'preset': preset})
+    # a measured drag table that does not start at Mach 0 (the caller's table must not gain, lose or change points)
+    for op in ('fire', 'zero', 'elevation'):
+        out.append({'carrier': 'G', 'step_ft': 20.0, 'wind': 'none', 'kw': dict(relative_deg=2.0), 'op': op, 'preset': 'imperial'})
     return out
 
 
@@ -156,6 +159,9 @@ def _cfg_args(tier):
         for op in ('fire', 'fire_extra', 'zero', 'elevation', 'fire_raises', 'danger_space', 'zero_raises', 'elevation_raises'):
             for preset in ('imperial', 'metric'):
                 out.append({'carrier': c, 'step_ft': step, 'wind': wind, 'kw': kw, 'op': op, 'preset': preset})
+    # a measured drag table that does not start at Mach 0 (the caller's table must not gain, lose or change points)
+    for op in ('fire', 'zero', 'elevation'):
+        out.append({'carrier': 'G', 'step_ft': 20.0, 'wind': 'none', 'kw': dict(relative_deg=2.0), 'op': op, 'preset': 'imperial'})
     return out
 
 
@@ -287,6 +293,57 @@ def c10_footprint(ctx, carrier, step_ft, wind):
     finally:
         sys.setswitchinterval(old)
     ctx.check('threads_equal_serial', all(res.get(i) == serial[0] for i in range(3)))
+
+
+def _cfg_kept(tier):
+    return [{'carrier': c, 'step_ft': s, 'wind': w, 'dv': dv} for (c, s, w, dv) in [('A', 100.0, 'two', 150.0), ('B', 60.0, 'left', 60.0)]]
+
+
+@harness('C10.kept_results', 'C10', configs=_cfg_kept, functions=FUNCS, cost=4, engine_opts={'div_check': False, 'nl_axioms_in_feasibility': False},
+         must_reach=['check:results_kept_by_the_caller_are_not_touched_by_later_calls', 'partial_kept'],
+         bounds='carriers A, B with a minimum-velocity limit a little below the muzzle velocity: a fire that returns (SYMBOLIC range short of the limit), a fire that raises RangeError '
+                '(the partial trajectory kept by the caller, also wrapped in a HitResult as documented), then further computations on the SAME calculator (another fire with a '
+                'symbolic range, a zero request): the rows the caller kept - lists and row objects - are exactly what they were')
+def c10_kept_results(ctx, carrier, step_ft, wind, dv):
+    p = pybc()
+    U = p.Unit
+    c0 = carriers.CARRIERS[carrier]
+    calc, shot = carriers.make(carrier, step_ft, wind, config={'cMinimumVelocity': c0['mv_fps'] - dv})
+    R1 = ctx.real('range1_ft', step_ft * 1.01, 2 * step_ft)
+    R2 = ctx.real('range2_ft', step_ft * 1.01, 2 * step_ft)
+
+    def rowsnap(rows):
+        return [tuple(getattr(x, 'raw_value', x) for x in r) for r in rows]
+    kept = []
+    try:
+        ok = calc.fire(shot, U.Foot(R1), U.Foot(step_ft))
+        kept.append(('returned', ok.trajectory, list(ok.trajectory), rowsnap(ok.trajectory)))
+    except p.RangeError as e:
+        kept.append(('partial', e.incomplete_trajectory, list(e.incomplete_trajectory), rowsnap(e.incomplete_trajectory)))
+    try:
+        calc.fire(shot, U.Foot(40 * step_ft), U.Foot(step_ft))
+    except p.RangeError as e:
+        ctx.reach('partial_kept')
+        hr = p.HitResult(shot, e.incomplete_trajectory, False)
+        kept.append(('partial', e.incomplete_trajectory, list(e.incomplete_trajectory), rowsnap(e.incomplete_trajectory)))
+        kept.append(('wrapped partial', hr.trajectory, list(hr.trajectory), rowsnap(hr.trajectory)))
+    # later computations on the same calculator
+    for later in ('fire', 'fire_extra', 'zero'):
+        try:
+            if later == 'fire':
+                calc.fire(shot, U.Foot(R2), U.Foot(step_ft))
+            elif later == 'fire_extra':
+                calc.fire(shot, U.Foot(R2), U.Foot(step_ft / 2), True)
+            else:
+                calc.barrel_elevation_for_target(shot, U.Foot(1.5 * step_ft))
+        except (p.RangeError, ArithmeticError):
+            pass
+        for (what, lst, items, snap0) in kept:
+            same = len(lst) == len(items) and all(a is b for a, b in zip(lst, items))
+            now = rowsnap(lst)
+            same = same and len(now) == len(snap0) and all(len(a) == len(b) and all(ctx.same_term(x, y) if (ctx.is_symbolic(x) or ctx.is_symbolic(y) or isinstance(x, float)) else x == y
+                                                                                     for x, y in zip(a, b)) for a, b in zip(now, snap0))
+            ctx.check('results_kept_by_the_caller_are_not_touched_by_later_calls', same, info={'kept': what, 'after': later, 'rows_then': len(snap0), 'rows_now': len(lst)})
 
 
 def _cfg_ro(tier):
